@@ -91,7 +91,30 @@ pub fn fold_case() -> BoxedStrategy<FoldCase> {
 }
 
 pub fn subs() -> Vec<Box<dyn AnySub>> {
-    vec![Box::new(Sub { name: "fold", quick: 60_000, thorough: 900_000, strat: fold_case, check: check_fold })]
+    vec![
+        Box::new(Sub { name: "fold", quick: 60_000, thorough: 900_000, strat: fold_case, check: check_fold }),
+        // "exactly as if appended to the URL query": with query-string authentication the FIRST value of an
+        // X-Amz-* parameter counts, so a decoy in a (large) form body must lose against the URL's value
+        Box::new(Sub {
+            name: "body-parameters-come-after-the-url's",
+            quick: 15_000,
+            thorough: 200_000,
+            strat: || {
+                let o = PlanOpts { logical: LogicalOpts { max_segments: 1, max_query: 2, max_headers: 1, body_class: 0, raw_segments: false }, allow_s3: false, plain_spelling: true, query_only: true, ..PlanOpts::default() };
+                (plan(o), 3usize..12, any::<u16>(), any::<bool>(), any::<bool>())
+                    .prop_map(|(mut p, n, k, first, before)| {
+                        p.cfg.fold = true;
+                        p.cfg.reqs = Reqs::default();
+                        p.form = Some((0..n).map(|i| (B::from(format!("field{}", i)), B::from("v"))).collect());
+                        p.spec.signed_headers.retain(|h| h != "content-type");
+                        // one of the query-carrier duplicate kinds (credential, date, signed headers, signature, token, algorithm), decoy in the body
+                        super::c19::make_case_kind(p, 5 + (k % 6) as usize, first, before, true, 60)
+                    })
+                    .boxed()
+            },
+            check: super::c19::check_dup,
+        }),
+    ]
 }
 
 pub fn check_fold(fc: &FoldCase, cc: &mut CaseCtx) -> CheckResult {
